@@ -804,15 +804,23 @@ pub fn structure_programs(depth: usize, mut f: impl FnMut(&Program) -> bool) {
             }
             for layout in 0..2 {
                 let p = if layout == 0 {
+                    // conditional regions between and after the statements: a statement ends at its last token,
+                    // whatever directive follows it
                     let mut all = head.to_vec();
+                    all.push(Item::Raw("#ifdef NEVER\nclass Dead { int x; }\n#endif".into()));
                     all.extend(body.clone());
-                    all.push(Item::Def { doc: vec![], blank: false, name: Some("last".into()), parents: vec![], body: None });
+                    all.push(Item::Raw("#ifndef NEVER\n#define SEEN".into()));
+                    all.push(Item::Def { doc: vec![], blank: false, name: Some("last".into()), parents: vec![], body: Some(vec![field(Ty::Int, "own", Some(int(1)), &[], false)]) });
+                    all.push(Item::Raw("#endif // NEVER".into()));
                     Program { files: vec![("a.td".into(), all)] }
                 } else {
                     let mut root = vec![Item::Include("inc.td".into())];
                     root.extend(body.clone());
-                    let mut inc = head.to_vec();
+                    // (the included file carries an include guard)
+                    let mut inc = vec![Item::Raw("#ifndef INC_TD\n#define INC_TD".into())];
+                    inc.extend(head.to_vec());
                     inc.push(Item::Def { doc: vec![], blank: false, name: Some("inc_def".into()), parents: vec![], body: None });
+                    inc.push(Item::Raw("#endif".into()));
                     Program { files: vec![("a.td".into(), root), ("inc.td".into(), inc)] }
                 };
                 if !f(&p) {
